@@ -9,6 +9,8 @@ func init() {
 			ruleGuardedBy(c, "C19.R1", []string{cacheLockID, "FloatingIPPlugin.nodeSubnetLock", "crdKey.Mutex", "crdCache.lock", "PortMappingHandler.Mutex", "PolicyManager.Mutex"}, 60)
 			c.Rule("C19.R3", "the static CNI network configuration is shared read-only (never written after Init)", 3)
 			ruleSharedConfImmutable(c, "C19.R3")
+			c.Rule("C19.R6", "a pool's node-subnet set is read-only after ConfigurePool; hand-outs are copies", 2)
+			rulePoolSetsImmutable(c, "C19.R6")
 			c.Rule("C19.R4", "shared fields without a lock are write-once (constructor / init only)", 15)
 			ruleWriteOnce(c, "C19.R4")
 			c.Rule("C19.R5", "goroutine closures share no variable written after they started", 5)
